@@ -1,6 +1,10 @@
 package main
 
-import "fmt"
+import (
+	"fmt"
+
+	"golang.org/x/tools/go/ssa"
+)
 
 func init() { register("DEBUG-effects", debugEffects) }
 
@@ -14,6 +18,24 @@ func debugEffects(c *Ctx) {
 		fmt.Printf("%s\n", FuncName(fn))
 		for _, ef := range efs {
 			fmt.Printf("    %-45s %-12s %-28s at %s via %s\n", ef.Path, ef.What, ef.Org, c.Pos(ef.At.Pos()), ef.Via)
+		}
+	}
+}
+
+func init() { register("DEBUG-tables", debugTables) }
+
+func debugTables(c *Ctx) {
+	for _, path := range c.sortedPkgPaths() {
+		sp := c.SSA[path]
+		if sp == nil {
+			continue
+		}
+		for _, name := range sortedMemberNames(sp) {
+			if g, ok := sp.Members[name].(*ssa.Global); ok {
+				if ct := c.constTableOf(g); ct != nil {
+					fmt.Printf("%s.%s: %d rows %v\n", path, name, len(ct.Rows), ct.Rows)
+				}
+			}
 		}
 	}
 }
